@@ -15,7 +15,7 @@ func init() {
 		ID:   "C17",
 		Rule: "one case = one value of the codec's domain (encode, layout comparison, decode into fresh and used receivers) or one decoder input (bytes, length 0..size+2, trailing bytes, prior receiver state); complete domains are swept inside an execution and counted as cases; non-trivial = the codec accepted the value/input",
 		Assumptions: []string{
-			"AbsCaptureTime 64-bit fields are drawn from 8-byte strings over {00,01,7F,80,FF} (5^8 each), one field over the full grid at a time against 12 values of the other",
+			"AbsCaptureTime 64-bit fields are drawn from 8-byte strings over {00,01,7F,80,FF} (5^8 each; thorough: over {00,01,7F,80,FF,55,AA}, 7^8 each), one field over the full grid at a time against 12 values of the other",
 			"AbsCaptureTime decode sequences: every sequence of 2-4 inputs from 8 (8 / 16 / 18 / 15 / 7 bytes and nil, equal and different timestamps and offsets) into one receiver; the caller keeps a copy of the value after each decode and every kept value is re-read after every later decode",
 			"bit layouts are taken from RFC 6464, the transport-wide-cc draft, and the WebRTC playout-delay / abs-send-time / abs-capture-time specifications",
 		},
@@ -171,12 +171,15 @@ func c17AbsSendTime(c *mc.Ctx) {
 }
 
 var c17Sym = []byte{0x00, 0x01, 0x7F, 0x80, 0xFF}
+var c17SymT = []byte{0x00, 0x01, 0x7F, 0x80, 0xFF, 0x55, 0xAA} // thorough
 
-func c17Word(idx int) uint64 {
+func c17Word(idx int) uint64 { return c17WordOver(idx, c17Sym) }
+
+func c17WordOver(idx int, sym []byte) uint64 {
 	var v uint64
 	for i := 0; i < 8; i++ {
-		v = v<<8 | uint64(c17Sym[idx%5])
-		idx /= 5
+		v = v<<8 | uint64(sym[idx%len(sym)])
+		idx /= len(sym)
 	}
 	return v
 }
@@ -184,16 +187,22 @@ func c17Word(idx int) uint64 {
 var c17Others = []uint64{0, 1, 0xFF, 0x100000000, 0xFFFFFFFF, 0x7FFFFFFFFFFFFFFF, 0x8000000000000000, 0xFFFFFFFFFFFFFFFF, 0x0102030405060708, 0x80000000, 0xFFFFFFFF00000000, 0x00000000FFFFFFFE}
 
 func c17AbsCaptureTime(c *mc.Ctx) {
-	which := c.Pick(2)                  // which field runs over the 5^8 grid
-	top := c.Pick(125)                  // three symbols of the grid word; the remaining 5^5 swept inside
+	which := c.Pick(2) // which field runs over the 5^8 (thorough 7^8) grid
+	sym := c17Sym
+	if c.Thorough() {
+		sym = c17SymT
+	}
+	base := len(sym)
+	inner := base * base * base * base * base
+	top := c.Pick(base * base * base) // three symbols of the grid word; the remaining ones swept inside
 	other := c.Pick(len(c17Others) + 1) // value of the other field; last = no offset (only when the timestamp sweeps)
 	prior := c.Pick(6)                  // 0 fresh, 1 used without offset, 2 used with offset, 3-5 derived from the current value
 	if which == 1 && other == len(c17Others) {
 		other = 0
 	}
 	c.Notef("AbsCaptureTime sweep field=%d block=%d other=%d prior=%d", which, top, other, prior)
-	for k := 0; k < 3125; k++ {
-		w := c17Word(top*3125 + k)
+	for k := 0; k < inner; k++ {
+		w := c17WordOver(top*inner+k, sym)
 		var ts uint64
 		var off *int64
 		if which == 0 {
@@ -255,8 +264,8 @@ func c17AbsCaptureTime(c *mc.Ctx) {
 			*d.EstimatedCaptureClockOffset += 0x0123456789
 		}
 	}
-	c.Ops(3125 * 2)
-	c.Cases(3124)
+	c.Ops(inner * 2)
+	c.Cases(inner - 1)
 	c.NonTrivial()
 	c.Outcome("ok")
 }
